@@ -60,6 +60,10 @@ add("C07", "model_checking",
 add("C08", "model_checking",
     "The C01 exploration with a context hook in EVERY reached state: all exported parts of the long-lived EpochsContext (three shufflings incl. committees, proposers, effective balances, total active stake and root, both sync committees' indices and pubkeys, pubkey<->index look-ups for every validator and every known key) vs NewEpochsContext on the state re-read from its own bytes; plus a differential continuation: the next default block applied to (copy of the long-lived pair) and to (reloaded state, fresh context) must give the same error/post-state bytes. Branching uses CopyState + Clone like a client.",
     chnote + " EffectiveBalances is documented as 'at the start of the epoch': compared on the indices the epoch-start registry had.", "bounded exhaustive exploration of histories on the implementation with a differential (from-scratch / reloaded) oracle", "DESIGN.md 3/C08")
+add("C12", "exploration",
+    "Per chain view (8 views thorough: heads in every fork phase0..deneb of the tiny preset, built from real transitions: main chain with a gap slot, an old branch that conflicts with finality once finality moves, a sibling of the head; head on either sibling) and per gossip topic: the honest message plus every single-condition corruption of it from a condition table written from the networking specification (signature by another key / under another domain / fork version, selection proofs, subnet, committee index, bit counts and lengths, unknown / non-descendant / finality-conflicting roots, flagged-bad blocks, duplicates via each seen-cache), and a full clock grid (every slot of the propagation window +-2, x 10 offsets around both 500 ms disparity edges). Expected class (ACCEPT / not ACCEPT / IGNORE) from the table; verdict and every Mark* call from zrnt; after each refusal the honest message is validated on the same session and must be accepted.",
+    chnote + " Trusted additionally: the condition tables in internal/chainh/p2pcases.go and the View backend (explicit block tree, recorded seen-caches). Blob sidecar and BLS-change topics have no validator in this library.",
+    "bounded exhaustive enumeration of (chain view x message x single-condition corruption x clock position x seen-cache content) on the implementation against a condition-table oracle", "DESIGN.md 3/C12")
 add("C13", "exploration",
     "Every deposit sequence of length <= 3 (quick) / 4 (thorough) over a 14-entry alphabet (amounts on both sides of every threshold, invalid proof-of-possession, non-curve pubkey, top-ups with valid/invalid signatures pushing across MAX, same key with other credentials) appended to / inserted into a base of valid deposits, with real Merkle proofs from an independent deposit tree, x 3 eth1 timestamps: genesis state bytes and root vs the reference initialize_beacon_state_from_eth1, returned context vs from-scratch, committees vs the specification, IsValidGenesisState on both sides of both thresholds; KickStartState on 6 validator sets.",
     chnote, "bounded exhaustive enumeration of input sequences against a reference model", "DESIGN.md 3/C13")
@@ -104,7 +108,7 @@ m = {"version": 1,
      "engines": [
          {"name": "seqx", "path": "internal/seqx", "serves_properties": ["C09", "C10", "C11", "C16", "C20"],
           "kind_free_text": "explicit-state BFS over operation sequences on the real object, replay-from-root, exact state merging on (model state, full private-state dump)"},
-         {"name": "chainx", "path": "internal/chainx, internal/chainh, internal/refspec, internal/refssz", "serves_properties": ["C01", "C02", "C03", "C07", "C08", "C13", "C14", "C18"],
+         {"name": "chainx", "path": "internal/chainx, internal/chainh, internal/refspec, internal/refssz", "serves_properties": ["C01", "C02", "C03", "C07", "C08", "C12", "C13", "C14", "C18"],
           "kind_free_text": "deviation-bounded exhaustive explorer over beacon-chain histories; real zrnt transition vs reference specification model on every step"},
          {"name": "schedx", "path": "internal/schedx, internal/concx, tools/shim", "serves_properties": ["C17"],
           "kind_free_text": "controlled scheduler + DFS over thread interleavings with preemption bounding; linearizability by brute force; -race pass with HB-free hand-off"},
